@@ -130,6 +130,18 @@ def op_history(c):
             finally:
                 os.unlink(path)
             out.append(None)
+        elif op[0] == 'load_bad':
+            # a file that is not JSON at all (truncated): load_file must not return as if the file had been loaded
+            fd, path = tempfile.mkstemp(suffix='.json')
+            with os.fdopen(fd, 'w') as f:
+                f.write(op[2])
+            try:
+                insts[op[1]].load_file(path)
+                out.append(['load-returned'])
+            except Exception as e:  # noqa
+                out.append(['load-raised', type(e).__name__])
+            finally:
+                os.unlink(path)
         elif op[0] == 'edit':
             # the caller edits the decoded document its parser holds (public property `ast`): keep the first element only
             a = insts[op[1]].ast
@@ -150,7 +162,14 @@ def op_history(c):
         now = [0, u_fc(fc)]
         if now != out[idx]:
             late[str(idx)] = now
-    return {'results': out, 'changed_later': late}
+    # results with the same declarations are equal objects in the library's own sense (==), whichever parse produced them
+    not_eq = []
+    obs = [(idx, u_fc(fc), fc) for idx, fc in kept]
+    for a in range(len(obs)):
+        for b in range(a + 1, len(obs)):
+            if obs[a][1] == obs[b][1] and not (obs[a][2] == obs[b][2]) and len(not_eq) < 3:
+                not_eq.append([obs[a][0], obs[b][0]])
+    return {'results': out, 'changed_later': late, 'same_declarations_but_not_equal': not_eq}
 
 
 main({'process': op_process, 'parse_event': op_parse_event, 'history': op_history})
